@@ -14,6 +14,8 @@ import (
 	"fmt"
 	"hash"
 	"math/big"
+	"os"
+	"os/exec"
 
 	"golang.org/x/crypto/sha3"
 
@@ -253,6 +255,32 @@ func runCase(r *mon.Run, c Case) {
 	}
 }
 
+// minimalLinkSet runs the auxiliary program c14min (only primitives/h2c linked) and compares what it prints with the
+// same calls made here, where every hash is linked.
+func minimalLinkSet(r *mon.Run) {
+	path := os.Getenv("VERIF_AUX_C14MIN")
+	if path == "" {
+		r.HookMissing("auxiliary program c14min (minimal link set)")
+		return
+	}
+	out, err := exec.Command(path).CombinedOutput()
+	dst := []byte("QUUX-V01-CS02-with-edwards25519_XMD:SHA-512_ELL2_RO_")
+	msg := []byte("abcdef0123456789")
+	var want bytes.Buffer
+	p1, _ := h2c.Edwards25519_XMD_SHA512_ELL2_RO(dst, msg)
+	b1, _ := p1.MarshalBinary()
+	p2, _ := h2c.Edwards25519_XMD_SHA512_ELL2_NU(dst, msg)
+	b2, _ := p2.MarshalBinary()
+	x := make([]byte, 48)
+	h2c.ExpandMessageXMD(x, crypto.SHA512, dst, msg)
+	fmt.Fprintf(&want, "Edwards25519_XMD_SHA512_ELL2_RO %x\nEdwards25519_XMD_SHA512_ELL2_NU %x\nExpandMessageXMD(SHA-512) %x\n", b1, b2, x)
+	r.EvalN(3)
+	r.Hist("minimal-link-set/calls")
+	if err != nil || !bytes.Equal(out, want.Bytes()) {
+		r.Violate("h2c/minimal-link-set", fmt.Sprintf("a program that links only primitives/h2c prints %q (%v); with every hash linked the same calls give %q", out, err, want.String()), Case{Kind: "minimal-link-set"})
+	}
+}
+
 func main() {
 	r := mon.Start("C14", "expanders: hashes {MD5, SHA-1, SHA-224 (refused), SHA-256, SHA-384, SHA-512, SHA-512/256, SHA3-256, SHA3-512} and XOFs {SHAKE128/256, cSHAKE with empty customisation; dirty input state} x DST lengths {0,1,16,254,255,256,257,300,1000} x output lengths {0,1,b-1,b,b+1,2b,2b+1,255b-1,255b,255b+1,255b+b/2,256b-1,256b,65535,65536,70000} x messages {empty, 1 byte, block size +-1, PRNG}; suites: RO/NU SHA-512, generic XMD (SHA-256/384/512/SHA3-256), XOF (SHAKE128/256), ristretto255 XMD/XOF on PRNG (DST, message) pairs incl. long DSTs, each Edwards result tested for [L]P = O; the Elligator 2 + rational map driven directly on {0, +-1, small, +-sqrt(-1), roots of the exceptional-case equations where they exist, PRNG}; non-trivial = one call; distinct = SHA-256 of its inputs")
 	var c Case
@@ -301,5 +329,6 @@ func main() {
 	r.Sample("case", cases[17])
 	r.Sample("case", cases[len(cases)/2])
 	r.Sample("case", cases[len(cases)-1])
+	minimalLinkSet(r)
 	r.Finish()
 }
